@@ -97,6 +97,16 @@ def table_alphabet(arg, year):
         return list(range(0, 101, 10))
     if arg == "geburtsjahr":
         return list(range(year - 100, year + 1))
+    if arg == "geburtsmonat" or arg == "monat_renteneintr":
+        return list(range(1, 13))
+    if arg == "geburtstag":
+        return [1, 15, 28, 31]
+    if arg in ("jahr_renteneintr",):
+        return list(range(year - 15, year + 45))
+    if arg.startswith("monate_") or arg.endswith("_monate") or arg.startswith("m_"):
+        return list(range(0, 37))
+    if arg in ("grundr_zeiten", "grundr_bew_zeiten"):
+        return list(range(0, 601, 12)) + [395, 396, 397, 419, 420, 421]
     if arg.startswith("anz_personen"):
         return list(range(1, 13))
     if arg.startswith("anz_erwachsene"):
@@ -177,7 +187,7 @@ def task_class(date_iso):
             except KeyError as e:
                 out.step()
                 key = e.args[0] if e.args else None
-                if log and log[-1][1] == key and isinstance(key, str) and key in lits:
+                if log and log[-1][1] == key and isinstance(key, str):  # literal or computed (e.g. region = "ost" if ... else "west")
                     path = f"{log[-1][0]}.{key}"
                     if path not in reported:
                         reported.add(path)
@@ -212,6 +222,13 @@ def task_class(date_iso):
                             reported.add(path)
                             out.violation(f"missing-table-entry:{path}:class-{cls}", {**case0, "rule": n, "function": func.__name__, "arguments": dict(zip(names_, vals))},
                                           f"rule {n} ({func.__name__}, active on {date_iso}) looks up {log[-1][0]}[{key}] for {dict(zip(names_, vals))}: a valid value without an entry on that date")
+                except IndexError as e:
+                    out.step()
+                    path = f"index[{','.join(names_)}={vals}]"
+                    if path not in reported and len(reported) < 50:
+                        reported.add(path)
+                        out.violation(f"table-index-out-of-range:{n}:class-{cls}", {**case0, "rule": n, "function": func.__name__, "arguments": dict(zip(names_, vals))},
+                                      f"rule {n} ({func.__name__}, active on {date_iso}) raises IndexError for the valid arguments {dict(zip(names_, vals))}: {e}")
                 except Exception:  # noqa: BLE001
                     out.step()
         c09.STATE["mode"] = None
